@@ -139,6 +139,29 @@ claim(
     "SQL write effects per transaction region over the call graph + effect ordering + exception-flow (handlers end in raise) + path enumeration",
 )
 
+claim(
+    "C08",
+    "Clause level: the claim on a path is a database fact (unique binary (kind, label) index, exact attached lookup); each symmetric "
+    "conflict relation has a guard in both arrival orders and each guard precedes the mutation it protects (tree lookup before a file is "
+    "created; complete attached-label scan and complete detached adoption before a tree is created; glob check before the recycle "
+    "short-circuit and before amended outputs; product query of register_nglob as a truth table; duplicate-step, out/vol and forbidden-"
+    "target checks); every _declare_file call is dominated by _check_declaration for the same path and role; the no-op redeclaration "
+    "requires equal role and equal creator (finite-domain table). All path spellings are not decided: the director trusts the client (C20).",
+    STATIC_TB,
+    "must-precede ordering of guards and mutations + SQL filter truth tables + who-may-call + finite-domain interpretation",
+)
+
+claim(
+    "C02",
+    "Clause level: observation never acquires ownership (no call path from the glob/relevance functions to create/_declare_file/reattach, no "
+    "node writes; _resolve_supply_file creates only unowned or tree-owned files); declaration lists are rebound to sorted(set(...)) before "
+    "any other use and observable row orders carry ORDER BY label; every GraphError raised under a database-dependent guard must use a "
+    "shared formatter, symmetric formatters sort their parties and fixed-role formatters get new/existing arguments in consistent roles "
+    "at all call sites. Identity of the final graph under all RPC interleavings is not decided.",
+    STATIC_TB,
+    "call-graph reachability (who-may-reach) + def-use ordering + control-dependence of raise sites on database lookups + formatter call-site role table",
+)
+
 _PENDING = "rules designed in DESIGN.md section 4 but not implemented yet in this session; no claim is made until the check exists"
-for _pid in ["C02", "C08", "C11", "C14", "C16", "C17", "C19", "C20"]:
+for _pid in ["C11", "C14", "C16", "C17", "C19", "C20"]:
     NOT_APPLICABLE[_pid] = _PENDING
